@@ -191,7 +191,7 @@ func runEntry(prog *ssa.Program, fn *ssa.Function, o runOpts) *runResult {
 			f, _ := os.Create(o.SmtLog)
 			s.Log = f
 		}
-		exs[w] = &Explorer{prog: prog, entry: fn, solver: s, q: q, Reached: map[string]int{}, Errors: map[string]int{}, Panics: map[string]int{}, FuncsHit: map[string]int{}, InitFailures: map[string]string{}, ForkSites: map[string]int{}, Notes: map[string]int{}, MaxPaths: o.MaxPaths, ConcCap: o.ConcCap, Params: o.Params, Known: o.Known, Summaries: o.Summaries}
+		exs[w] = &Explorer{prog: prog, entry: fn, solver: s, q: q, Reached: map[string]int{}, Errors: map[string]int{}, Panics: map[string]int{}, FuncsHit: map[string]int{}, InitFailures: map[string]string{}, ForkSites: map[string]int{}, Notes: map[string]int{}, QuerySites: map[string]int{}, MaxPaths: o.MaxPaths, ConcCap: o.ConcCap, Params: o.Params, Known: o.Known, Summaries: o.Summaries}
 		wg.Add(1)
 		go func(ex *Explorer) { defer wg.Done(); ex.Run(); ex.solver.Close() }(exs[w])
 	}
@@ -234,6 +234,9 @@ func runEntry(prog *ssa.Program, fn *ssa.Function, o runOpts) *runResult {
 		for k, v := range o.UnknownSites {
 			ex.noteUnknown(k)
 			ex.UnknownSites[k] += v - 1
+		}
+		for k, v := range o.QuerySites {
+			ex.QuerySites[k] += v
 		}
 		for k, v := range o.Notes {
 			ex.Notes[k] += v
